@@ -4,7 +4,7 @@
    as that body. *)
 From Soy Require Import Model.Bytes Model.Outcome Model.Ast Model.Token Model.RawText Model.ExprParser Model.Parser Generated.Tables
   Spec.ExprSyntax Spec.CmdSyntax Proofs.ExprParserRules Proofs.ExprParserProofs Proofs.CmdRoundtripBase Proofs.CmdRoundtripRules
-  Proofs.CmdRoundtripPrint Proofs.CmdRoundtripSwitch Proofs.CmdRoundtripCall.
+  Proofs.CmdRoundtripPrint Proofs.CmdRoundtripSwitch Proofs.CmdRoundtripCall Proofs.CmdRoundtripMsg.
 From Soy Require Import Model.AstPrint Model.AstPrintCmd.
 From Coq Require Import Lia.
 Open Scope N_scope.
@@ -173,14 +173,34 @@ Fixpoint csize (n : node) : nat :=
   | NSwitchCase _ _ x => S (csize x)
   | NCall _ _ _ _ params => S (list_sum (map csize params))
   | NParamContent _ _ x => S (csize x)
+  | NMsg _ _ _ _ children => S (S (list_sum (map csize children)))
+  | NMsgPlaceholder _ _ c => S (csize c)
   | _ => 1%nat
   end.
+
+Lemma csize_pos x : (1 <= csize x)%nat.
+Proof. destruct x; cbn [csize]; lia. Qed.
+Lemma unplz_size : forall l run,
+  (list_sum (map csize (unplz run l)) <= match run with [] => 0 | _ :: _ => 1 end + list_sum (map csize l))%nat.
+Proof.
+  induction l as [|x r IH]; intros run.
+  - cbn [unplz]. destruct run; cbn; lia.
+  - cbn [unplz]. destruct (is_textlike x).
+    + specialize (IH (run ++ [x])). pose proof (csize_pos x). cbn [map list_sum].
+      assert (E : (match run ++ [x] with [] => 0 | _ :: _ => 1 end = 1)%nat) by (destruct run; reflexivity). rewrite E in IH.
+      change (list_sum (csize x :: map csize r)) with (csize x + list_sum (map csize r))%nat. clear E. revert IH. generalize (list_sum (map csize (unplz (run ++ [x]) r))). intros k IH. destruct run; lia.
+    + specialize (IH []). rewrite map_app, list_sum_app. cbn [map list_sum].
+      assert (csize (unwrap x) <= csize x)%nat by (destruct x; cbn [unwrap csize]; lia).
+      change (list_sum (csize (unwrap x) :: map csize (unplz [] r))) with (csize (unwrap x) + list_sum (map csize (unplz [] r)))%nat.
+      change (list_sum (csize x :: map csize r)) with (csize x + list_sum (map csize r))%nat.
+      destruct run; cbn [run_node map]; [change (list_sum []) with 0%nat | change (list_sum [csize (NRawText (run_pos (n :: run)) (run_text (n :: run)))]) with 1%nat]; cbv iota in IH; lia.
+Qed.
 
 Lemma csize_if_cons p c r : csize (NIf p (c :: r)) = S (csize c + list_sum (map csize r)).
 Proof. reflexivity. Qed.
 
 (* ---- until lists that no command of a body can be mistaken for ---- *)
-Definition start_types : list N := expr_start_types ++ [pit_Debugger; pit_Log; pit_Let; pit_If; pit_For; pit_Switch; pit_Call; pit_Css].
+Definition start_types : list N := expr_start_types ++ [pit_Debugger; pit_Log; pit_Let; pit_If; pit_For; pit_Switch; pit_Call; pit_Css; pit_Msg].
 Definition good_until (until : list N) : bool :=
   negb (one_of pit_LeftDelim until) && negb (one_of pit_Text until) && forallb (fun ty => negb (one_of ty until)) start_types.
 
@@ -517,6 +537,32 @@ Proof.
       [exact efuel_ok | reflexivity | exact Hf | exact Hsp | exact Hcd | reflexivity | reflexivity | exact Hres | exact HPR | reflexivity | reflexivity | reflexivity].
 Qed.
 
+(* ---- {msg} ---- *)
+Lemma ok_msg m p id meaning desc children : (csize (NMsg p id meaning desc children) <= S n)%nat -> CmdOK m (NMsg p id meaning desc children).
+Proof.
+  intros Hsz Hwf Hrt l2. destruct (proj1 (wf_cmd_msg lexq nameok _ _ _ _ _ _) Hwf) as (Em & Eid & Hqm & Hqd & Hwc). subst m id. clear Hwf.
+  rewrite cmd_toks_msg. cbn [app]. do 2 eexists. split; [reflexivity|]. split; [cbn; tauto|].
+  set (ns0 := unplz [] children).
+  set (contents := NList (first_pos (List.concat (map cmd_toks ns0))) ns0).
+  assert (Hwb : wf_body true contents).
+  { split; [reflexivity|]. split; [apply unplz_wf, Hwc | apply (unplz_no_adjacent lexq nameok), Hwc]. }
+  assert (Etoks : msg_toks [] children = body_toks contents) by (symmetry; apply (unplz_toks lexq nameok), Hwc).
+  assert (Eplz : plz_children (children_of contents) = children) by (apply (plz_unplz lexq nameok children [] Hwc)).
+  assert (Hcs : (csize contents <= n)%nat).
+  { pose proof (unplz_size children []). cbn [csize] in Hsz |- *. fold ns0 in H. cbv iota in H. unfold contents. cbn [csize]. lia. }
+  assert (Hat : msg_attrs unq ((match meaning with [] => [] | _ :: _ => attr_toks v_meaning (quoted_attr meaning) end) ++ attr_toks v_desc (quoted_attr desc))
+                          meaning desc).
+  { unfold quoted_attr. destruct (go_quote desc) as [qd|] eqn:Ed; [|contradiction Hqd; reflexivity].
+    destruct meaning as [|c0 mn]; [apply ma_desc, unq_quote, Ed|].
+    destruct (go_quote (c0 :: mn)) as [qm|] eqn:Em; [|contradiction Hqm; reflexivity].
+    apply ma_both; apply unq_quote; assumption. }
+  rewrite Etoks. rewrite <- Eplz at 1. norm_app. rewrite (app_assoc _ (attr_toks v_desc (quoted_attr desc))).
+  cbn [close_tag app].
+  eapply Tag_msg with (u := kw pit_MsgEnd 0) (rd := T_rdelim) (rd2 := T_rdelim);
+    [reflexivity | exact Hat | reflexivity | | reflexivity | rewrite Eplz; apply (wf_children_no_plural lexq nameok children [] Hwc)].
+  apply IHB; [exact Hcs | exact Hwb | reflexivity | reflexivity].
+Qed.
+
 (* ---- {css} ---- *)
 Lemma ok_css m p e suffix : CmdOK m (NCss p e suffix).
 Proof.
@@ -552,6 +598,7 @@ Proof.
   - apply ok_call, Hsz.
   - apply ok_let_value.
   - apply ok_let_content, Hsz.
+  - apply ok_msg, Hsz.
 Qed.
 End Step.
 
